@@ -196,7 +196,7 @@ func NewBLSThresholdSignatureInspector(
 	return &blsThresholdSignatureInspector{
 		size:               size,
 		threshold:          threshold,
-		message:            message,
+		message:            append([]byte(nil), message...), // copy: the caller may reuse the input buffer
 		hasher:             NewExpandMsgXOFKMAC128(dsTag),
 		shares:             make(map[index]Signature),
 		thresholdSignature: nil,
@@ -341,7 +341,8 @@ func (s *blsThresholdSignatureInspector) TrustedAdd(orig int, share Signature) (
 	if s.enoughShares() {
 		return true, nil
 	}
-	s.shares[index(orig)] = share
+	// store a copy: the caller may reuse the input buffer
+	s.shares[index(orig)] = append(Signature(nil), share...)
 	return s.enoughShares(), nil
 }
 
@@ -383,7 +384,8 @@ func (s *blsThresholdSignatureInspector) VerifyAndAdd(orig int, share Signature)
 
 	enough := s.enoughShares()
 	if verif && !enough {
-		s.shares[index(orig)] = share
+		// store a copy: the caller may reuse the input buffer
+		s.shares[index(orig)] = append(Signature(nil), share...)
 	}
 	return verif, s.enoughShares(), nil
 }
